@@ -149,3 +149,37 @@ Theorem C13_reject_overlap :
   regions_okb ((min_key 0, max_key 31, 32) :: (min_key 31, max_key 63, 33) :: nil) = false.
 Proof. exact ShardsGen_proofs.reject_overlap. Qed.
 Print Assumptions C13_reject_overlap.
+
+(* ------------------------------------------------------------------------------------------ *)
+(* Hash-table size and seed: where a page sits in the table is a function of both, what a lookup    *)
+(* answers is not.  The lookup of a page (HtLookup.v: mirror of PageLoader::probe / try_complete and *)
+(* of Store::load_page - triangular walk from hash mod buckets, tombstones and foreign tags passed  *)
+(* over, a matching 7-bit tag is only a POSSIBLE hit: on a label mismatch the walk continues) finds  *)
+(* every stored page of every decoded image that passes the decoder's probe check, whatever the     *)
+(* table size and the hash function are, and returns nothing but stored pages with that label.      *)
+(* Without the retry after a tag collision this is false.                                           *)
+From Coq Require Import List NArith.
+From Nomt Require Import Image HtLookup HtLookup_proofs.
+Local Open Scope N_scope.
+
+Theorem C13_lookup_finds_stored : forall fs xxh img p hash,
+  decode_image fs = Ok img -> wf_ht_probe xxh img = true ->
+  In p (h_pages (i_ht img)) -> xxh (p_label p) = Some hash ->
+  let h := i_ht img in
+  ht_lookup (N.to_nat (2 * h_buckets h + 2)) (h_meta_map h) (h_pages h) (h_buckets h) hash
+            (p_label p) (hash mod h_buckets h) 0 = Some p.
+Proof. exact HtLookup_proofs.image_lookup_finds_stored. Qed.
+Print Assumptions C13_lookup_finds_stored.
+
+Theorem C13_lookup_sound : forall fuel mm ps n hash label b s q,
+  ht_lookup fuel mm ps n hash label b s = Some q -> In q ps /\ p_label q = label.
+Proof. exact HtLookup_proofs.ht_lookup_sound. Qed.
+Print Assumptions C13_lookup_sound.
+
+Theorem C13_lookup_once_refuted :
+  meta_consistent tc_mm (tc_P :: tc_Q :: nil) = true /\
+  probe 18 tc_mm 8 (p_bucket tc_Q) 3 0 = None /\ p_meta tc_Q = full_entry 3 /\
+  ht_lookup 18 tc_mm (tc_P :: tc_Q :: nil) 8 3 (p_label tc_Q) 3 0 = Some tc_Q /\
+  ht_lookup_once 18 tc_mm (tc_P :: tc_Q :: nil) 8 3 (p_label tc_Q) 3 0 = None.
+Proof. exact HtLookup_proofs.lookup_once_refuted. Qed.
+Print Assumptions C13_lookup_once_refuted.
